@@ -1,0 +1,103 @@
+//! Verification-only seam (compiled with `--cfg datacake_verif`): an in-process
+//! transport. When enabled on the current thread, `Server::listen` registers the server
+//! in a thread-local address table instead of binding a socket, and `Channel` hands the
+//! very same `http::Request` it would have sent to the destination's real connection
+//! handler. Everything above the socket (URI construction, handler lookup, payload
+//! framing and checking, status encoding) stays the production code.
+
+use std::cell::{Cell, RefCell};
+use std::collections::HashMap;
+use std::net::SocketAddr;
+
+use crate::server::ServerState;
+
+#[derive(Debug, Clone, Copy, PartialEq, Eq)]
+/// What happens to one RPC, decided by the harness.
+pub enum NetVerdict {
+    /// The request reaches the server and the reply reaches the client.
+    Deliver,
+    /// The request is lost before the server sees it.
+    DropRequest,
+    /// The server handles the request but the reply is lost.
+    DropReply,
+}
+
+type Policy = Box<dyn FnMut(SocketAddr, &str) -> NetVerdict>;
+
+thread_local! {
+    static IN_PROCESS: Cell<bool> = Cell::new(false);
+    static SERVERS: RefCell<HashMap<SocketAddr, ServerState>> = RefCell::new(HashMap::new());
+    static POLICY: RefCell<Option<Policy>> = RefCell::new(None);
+}
+
+/// Switches the in-process transport on or off for the current thread.
+pub fn set_in_process(enabled: bool) {
+    IN_PROCESS.with(|v| v.set(enabled));
+}
+
+/// Is the in-process transport enabled on this thread?
+pub fn in_process() -> bool {
+    IN_PROCESS.with(|v| v.get())
+}
+
+/// Forgets every registered server and the installed policy.
+pub fn reset() {
+    SERVERS.with(|s| s.borrow_mut().clear());
+    POLICY.with(|p| *p.borrow_mut() = None);
+}
+
+/// Installs the per-RPC fault policy (destination address, URI path) -> verdict.
+pub fn set_policy(policy: impl FnMut(SocketAddr, &str) -> NetVerdict + 'static) {
+    POLICY.with(|p| *p.borrow_mut() = Some(Box::new(policy)));
+}
+
+/// Removes a server from the address table (the node is gone).
+pub fn unregister(addr: SocketAddr) {
+    SERVERS.with(|s| {
+        s.borrow_mut().remove(&addr);
+    });
+}
+
+pub(crate) fn register(addr: SocketAddr, state: ServerState) {
+    SERVERS.with(|s| {
+        s.borrow_mut().insert(addr, state);
+    });
+}
+
+pub(crate) fn lookup(addr: SocketAddr) -> Option<ServerState> {
+    SERVERS.with(|s| s.borrow().get(&addr).cloned())
+}
+
+pub(crate) fn verdict(dst: SocketAddr, path: &str) -> NetVerdict {
+    POLICY.with(|p| match p.borrow_mut().as_mut() {
+        Some(policy) => policy(dst, path),
+        None => NetVerdict::Deliver,
+    })
+}
+
+/// A scheduling point: the calling task goes to the back of the run queue once.
+pub(crate) async fn yield_once() {
+    tokio::task::yield_now().await;
+}
+
+/// Hands raw body bytes to whatever handler is registered for `uri_path` at `dst`,
+/// exactly as if they had arrived over the wire. Returns the HTTP status and reply body.
+pub async fn dispatch_raw(
+    dst: SocketAddr,
+    uri_path: &str,
+    body: Vec<u8>,
+) -> Result<(u16, Vec<u8>), String> {
+    crate::net::verif_dispatch_raw(dst, uri_path, body).await
+}
+
+/// The URI path the client would use for message `Msg` of service `Svc`.
+pub fn uri_path_of<Svc, Msg>() -> String
+where
+    Svc: crate::Handler<Msg>,
+    Msg: crate::RequestContents,
+{
+    crate::to_uri_path(
+        <Svc as crate::RpcService>::service_name(),
+        <Svc as crate::Handler<Msg>>::path(),
+    )
+}
